@@ -229,3 +229,10 @@ impl<'p> Deref for Tracking<'p> {
 impl DerefMut for Tracking<'_> {
   fn deref_mut(&mut self) -> &mut Self::Target { self.0 }
 }
+
+#[cfg(feature = "gohla_pie_verif")]
+impl<A> PieInternal<A> {
+  /// Verification hook: read-only access to the store.
+  #[inline]
+  pub fn verif_store(&self) -> &Store { &self.store }
+}
